@@ -64,10 +64,10 @@ def handleCodec (op : String) (j : Json) : R Json := do
     let b ← getBytes j "hex"
     match decodeAll b with
     | none => pure (Json.mkObj [("err", "cbor")])
-    | some i => pure (cdRes (fromPrim Pyc.Generated.repoSchema 200 (.cls (← getStr j "cls")) i))
+    | some i => pure (cdRes (fromPrim Pyc.Generated.repoSchema 100000 (.cls (← getStr j "cls")) i))
   | "codec.typed" =>
     -- is the value within the scope of the generic round-trip theorem (`HasType`, by the sound check `typedB`)?
-    pure (Json.bool (typedB Pyc.Generated.repoSchema 200 (.cls (← getStr j "cls")) (← cdVal (← j.getObjVal? "v"))))
+    pure (Json.bool (typedB Pyc.Generated.repoSchema 100000 (.cls (← getStr j "cls")) (← cdVal (← j.getObjVal? "v"))))
   | "cbor.reenc" =>
     let b ← getBytes j "hex"
     match decodeAll b with
@@ -159,9 +159,9 @@ def handleCustom (op : String) (j : Json) : R Json := do
     let v ← cdVal (← j.getObjVal? "v")
     let nv := bodyNorm Pyc.Generated.repoSchema v
     let cls ← getStr j "cls"
-    pure (Json.mkObj [("norm", cdOfVal nv), ("typed", Json.bool (typedB Pyc.Generated.repoSchema 200 (.cls cls) nv)),
+    pure (Json.mkObj [("norm", cdOfVal nv), ("typed", Json.bool (typedB Pyc.Generated.repoSchema 100000 (.cls cls) nv)),
       ("enc", ofBytes (encodeVal Pyc.Generated.repoSchema v)),
-      ("dec", cdRes (fromPrim Pyc.Generated.repoSchema 200 (.cls cls) (toPrim Pyc.Generated.repoSchema v)))])
+      ("dec", cdRes (fromPrim Pyc.Generated.repoSchema 100000 (.cls cls) (toPrim Pyc.Generated.repoSchema v)))])
   | _ => throw s!"unknown op {op}"
 
 end Pyc.Driver
